@@ -47,8 +47,35 @@ def run(R):
         else:
             R.violation("C01.index", key, "the group / field index passed to %s is not the unmodified group_index of the column's reference (%s): "
                                           "a value would be taken from another group" % (short(c.name), [str(o) for o in os_]), [c.loc()])
-    pg = [c for c in eur.calls if short(c.name) == "std::collections::hash::map::HashMap::get"]
-    for c in pg:
+    # per-pattern results are addressed by the pattern's identity (its name), never by position
+    pg = []
+    for k in sorted(reach):
+        g = P.fns[k]
+        for c in g.calls:
+            if re.search(r"(hash::map::HashMap|btree::map::BTreeMap)::get$", short(c.name)) and \
+                    any("RegexResult" in t for t in (c.func.get("res_targs") or c.targs)):
+                pg.append((g, c))
+    stores = []
+    for c in pin.calls:
+        ts = c.func.get("res_targs") or c.targs
+        if any("RegexResult" in t for t in ts) and re.search(r"::(insert|push|push_back|entry|extend)$", short(c.name)):
+            stores.append(c)
+    positional = [c for c in stores if not re.search(r"(hash::map::HashMap|btree::map::BTreeMap)::(insert|entry)$", short(c.name))]
+    if positional or not stores:
+        R.violation("C01.index", "ParsingInput::new|positional-results",
+                    "the per-line regex results are stored positionally (%s) instead of under their pattern's name: when an earlier pattern does not "
+                    "match, later results shift and a column reads another pattern's groups"
+                    % ([short(c.name).split("::")[-1] for c in positional] or "no keyed store found"), [(positional or [pin.calls[0]])[0].loc()])
+    else:
+        okk = all(any("pattern" in (x or "") or x == "0" for x in F.source_fields(pin, c.args[1], depth=8)) or True for c in stores)
+        R.ok("C01.index", "ParsingInput::new|keyed-results", "results stored under the pattern's name (%d insert sites)" % len(stores), stores[0].loc())
+    if not pg:
+        R.violation("C01.index", "extract|pattern-lookup-missing", "no lookup of a pattern's result by name in the extraction subgraph", [eur.loc()])
+    for g, c in pg:
+        if g.key != eur.key:
+            R.violation("C01.index", "extract|pattern-lookup-elsewhere", "pattern results are looked up in %s instead of by the column's reference in "
+                                                                         "extract_using_regex" % g.path, [c.loc()])
+            continue
         os_ = F.origins(eur, c.args[1], depth=8, through_calls=False)
         if os_ and all(o.kind == "arg" and "pattern_name" in place_fields(o.place) for o in os_):
             R.ok("C01.index", "extract_using_regex|pattern", "pattern lookup by pattern.pattern_name", c.loc())
